@@ -210,6 +210,57 @@ class Sim:
             return True
         m[kp] = vp; self.emit(f'mset {c} {kt} {vt}')
         return True
+    # ---- stored objects as OPERANDS of concat (Tuple source) and of the constructors: concat(l, tuple(get(l, 0), get(t, k), 7)),
+    #      new(List, Probe, get(l, 0), ...), new(Table, Probe, Probe, key_from_iteration, get(u, k), ...).  NOT generated: records of the
+    #      receiving Array (KF-C04-push-own-element) and the same stored object twice in one concat (KF-C04-tuple-dup-iter): bad-op.
+    def pick_stored(self, avoid=None, prefer=None, own=0.5, used=()):
+        """(token, payload, identity) of a stored probe element / key / value; None when there is none"""
+        r = self.rng
+        cands = [d for d in self.of('ALTR') if d != avoid and (self.seq.get(d) or self.map.get(d))]
+        if not cands: return None
+        d = prefer if (prefer in cands and r.random() < own) else r.choice(cands)
+        for _ in range(6):
+            if self.k[d] in 'AL':
+                xs = self.seq[d]; j = r.randrange(len(xs))
+                ident = (d, 'e', j); tok = f'@{d}[{j if r.random() < 0.5 else j - len(xs)}]'; p = xs[j]
+            else:
+                m = self.map[d]; k = r.choice(list(m)); sel = r.choice('kv')
+                ident = (d, sel, k); tok = f'@{d}.{sel}{k}'; p = k if sel == 'k' else m[k]
+            if ident not in used: return tok, p, ident
+        return None
+    def operand_op(self, c=None):
+        r = self.rng
+        if c is not None and self.k.get(c) in ('A', 'L') and r.random() < 0.8:
+            k = self.k[c]; used = set(); toks = []; ps = []
+            for _ in range(r.randrange(1, 5)):
+                got = self.pick_stored(avoid=c if k == 'A' else None, prefer=c if k == 'L' else None, own=0.6, used=used) if r.random() < 0.7 else None
+                if got is None: p = self.pay(); toks.append(str(p)); ps.append(p)
+                else: toks.append(got[0]); ps.append(got[1]); used.add(got[2])
+            if not used: return False
+            self.seq[c] += ps; self.emit(' '.join([f'concatv {c}'] + toks))
+            return True
+        c = self.free()
+        kinds = sorted({k for k in self.k.values() if k in 'ALTR'})
+        if c is None or not kinds or len(self.k) > 9 or r.random() < 0.4: return False
+        kind = r.choice(kinds); n = r.randrange(1, 6); nref = 0
+        def operand(keyish):
+            nonlocal nref
+            got = self.pick_stored() if r.random() < 0.65 else None
+            if got is None:
+                p = self.key() if keyish else self.pay(); return str(p), p
+            nref += 1; return got[0], got[1]
+        if kind in 'AL':
+            ops = [operand(False) for _ in range(n)]
+            if not nref: return False
+            self.k[c] = kind; self.seq[c] = [p for _, p in ops]
+            self.emit(' '.join([f'newv {c} {self.kt(kind)}'] + [t for t, _ in ops]))
+        else:
+            ops = [(operand(True), operand(False)) for _ in range(n)]
+            if not nref: return False
+            self.k[c] = kind; self.map[c] = {}
+            for (kt_, kp), (vt_, vp) in ops: self.map[c][kp] = vp
+            self.emit(' '.join([f'newm {c} {self.kt(kind)}'] + [t for kv in ops for t, _ in kv]))
+        return True
     # ---- sequences
     def idx(self, n, fail):
         """an index for a sequence of length n: valid (both signs) or, when `fail`, out of range"""
@@ -358,6 +409,7 @@ def history(rng, nops, weights, paymax=40, keypool=None, maxlen=40, big=False, f
             k = s.k[c]
             if k == 'X': continue
             if rng.random() < wrong and (s.typed_seq_op(c) if k in 'ALBC' else s.typed_map_op(c)): continue
+            if rng.random() < alias and k in 'ALTR' and rng.random() < 0.3 and len(s.seq.get(c, ())) <= maxlen and s.operand_op(c): continue
             if rng.random() < alias and (s.alias_seq_op(c) if k in 'AL' else s.alias_map_op(c) if k in 'TR' else False): continue
             if k in 'ALBC':
                 if len(s.seq[c]) > maxlen and not big:
@@ -407,7 +459,11 @@ class C05(Spec):
                  'in a container (aliased arguments) are a second layer of the model (Cello/OwnAlias.lean: the argument is read when the '
                  'code reads it), proved equal to the plain operation with the payloads resolved before the call; the probe key type '
                  'hashes designated payloads to the boundary values of a 64-bit hash')
-    level_text = ('Theorems C05_aliased_as_resolved, C05_aliased_map_set_reads, C05_conservation_aliased_partial, C05_history_aliased_partial, C05_store_back_{tree,table}: '
+    level_text = ('Extension round — C05_concat_operands_read_when_pushed, C05_concat_operands_conservation: concat(list, tuple(operands)) where operands are stored objects — nodes of the receiving List itself (any index sign), elements / key objects / value objects of other containers — '
+                  'is modelled item by item (List_Push per operand, operand i read from the list that already holds the elements constructed for the operands before it) and proved equal to the concat of fresh objects with the payloads resolved before the call; '
+                  'one fresh element per operand, nothing finalised, old elements in place; the constructors new(Array / List / Table / Tree, ..., stored objects) and Array_Concat with operands of other containers are calls of the same layer (ACall.concat / newSeq / newMap), so '
+                  'C05_aliased_as_resolved / C05_conservation_aliased_partial / C05_history_aliased_partial cover histories with them. C05_generic_dispatch: destruct / construct_with / assign / copy of src/Alloc.c, src/Assign.c consult the instance the model assumes and no container type registers Copy or Swap. '
+                  'Theorems C05_aliased_as_resolved, C05_aliased_map_set_reads, C05_conservation_aliased_partial, C05_history_aliased_partial, C05_store_back_{tree,table}: '
                   'for every world, receiver and call whose element / key / value argument is an object stored in a container — of the receiver itself '
                   '(set(t, k, get(t, k)), rem(t, key_from_iteration), push(l, get(l, 0)), set(a, i, get(a, j))) or of another one — read by the model WHEN THE CODE READS IT '
                   '(Tree_Set: the value argument after the key was assigned in place; Table_Set_Move: both into the swap space before the resident pair is destructed), '
@@ -456,6 +512,8 @@ class C05(Spec):
             '(h) aliased: 40% of the calls on small Lists / Arrays / Tables / Trees pass an object stored in a container as element / key / value argument — the stored value under the same key '
             '(store-back, with a fresh and with the stored key object), the stored key object (iteration) as key of set and rem, a value object as key, the value / key of another entry, '
             'own elements of a List to push / push_at / set / rem, own records of an Array to set / rem (also i = j), elements of other containers everywhere (5% in every other family; the grow cases store back 8 pairs); '
+            '(h\') operands: in the aliased families 30% of the aliased calls are concat(c, tuple(...)) with 1-4 operands of which 70% are stored objects (nodes of the receiving List by positive / negative index mixed with fresh objects; elements, key and value objects of other containers; an Array only from others) '
+            'or a constructor of a List / Array / Table / Tree from 1-5 operands / pairs, 65% of them stored objects of other containers (the same object twice allowed there); I-line counters concat_list_own_node, concat_other_only, concat_own_negative_index, concat_own_mixed_fresh, ctor_same_object_twice, operand_refs; '
             '(i) boundary hashes: Tables (and Trees) over keys whose hash is 2^64-1, 0, 1, 2^64-2, 2^63, 2^63+-1, 2^32, 2^32+-1, 2^64-2^32, 2^33, NaN / inf / 1.0 bit patterns, L, L+-1, 41L, 41L-1, 2L-1 '
             '(2-4 keys per value; six of them in every default key pool), and a growth case over all 176 boundary keys through the sizes 5..197; '
             '(g, run first) type-refused: a third of the calls carry an Int / String / Float / Type object / NULL where a probe element, key or value is expected — '
@@ -471,6 +529,7 @@ class C05(Spec):
                     'the table of boundary hash values is written twice (BH[] in harness/h_own.c, bhTable in Cello/OwnConc.lean); a mismatch shows as a layout divergence on the first boundary key',
                     'Cello/Table.lean and Cello/RBTree.lean mirror src/Table.c and src/Tree.c slot by slot / node by node: validated by the C02 / C03 engines (h_table, h_tree), imported here',
                     'Cello/SeqStore.lean ArrS mirrors the record block of src/Array.c (realloc, memmove, nitems / nslots): validated cell by cell by the C04 engine (h_seq), imported here for C05_moves_array',
+                    'concat operands reach the library in a stack Tuple built by the harness; Tuple iteration itself (Tuple_Iter_Init / Next) is the C04 / C11 engines\' subject',
                     'translate/g_own.py (regex over the container sources: which functions call destruct/assign/memcpy/cast, where the casts stand relative to the first effect)',
                     'a refused constructor: the harness deletes the half-built object at once; that the collector does the same at its next sweep is C06\'s subject',
                     'the probe element type of the harness stands for every element type with New/Assign/Del owning heap memory',
@@ -480,7 +539,9 @@ class C05(Spec):
                    'resize(list, n) with n > len excluded: List_Resize links zero-filled, never constructed elements (known finding own-list-resize-raw)',
                    'assign(Array, non-empty Table or Tree) excluded: refused (ValueError) after Array_Assign has set len = len(source) over unconstructed records (known finding own-array-assign-partial, site Array_Assign); from an empty Table / Tree it is in contract and generated; assign(List, Table or Tree) is in contract and generated for empty AND non-empty sources (a non-empty one raises ValueError after List_Clear: the old elements are finalised once, live = sum of len — C05_list_assign_from_map; that the failed call changed its receiver is C12\'s KF-C12-assign-clears)',
                    'assign(Table or Tree, Array or List) is not modelled (the map takes Int as key type and refuses probe keys afterwards; the model does not track element types), concat(x, x) diverges (KF-C04-self-concat): both are answered bad-op by harness and model and a history containing one is outside the contract (inContract requires that the operation was executed)',
-                   'arguments that are stored objects (references @d[i], @d.kK, @d.vK into the receiver or another container) are modelled and generated for push / push_at / set / rem / Table and Tree set / rem; NOT executed (bad-op in harness and model, outside the contract): push / push_at of an element of the SAME Array (Array_Push reads the argument after Array_Reserve_More, Array_Push_At after the memmove: KF-C04-push-own-element, recorded under C04 — excluded also when the Array would not have to grow, the ownership model does not track capacity), references into containers of Box, references that designate nothing; concat / constructors / assign with operands holding own elements are C04\'s subject (same finding)',
+                   'arguments that are stored objects (references @d[i], @d.kK, @d.vK into the receiver or another container) are modelled and generated for push / push_at / set / rem / Table and Tree set / rem; NOT executed (bad-op in harness and model, outside the contract): push / push_at of an element of the SAME Array (Array_Push reads the argument after Array_Reserve_More, Array_Push_At after the memmove: KF-C04-push-own-element, recorded under C04 — excluded also when the Array would not have to grow, the ownership model does not track capacity), references into containers of Box, references that designate nothing; '
+                   'references as OPERANDS of concat (from a Tuple) and of the constructors are modelled and generated (extension round) — NOT executed there: records of the receiving Array among the operands of concat (Array_Concat reads them after the realloc: same C04 finding), '
+                   'the same stored object twice among the operands of one concat (the operands travel in a Tuple and foreach over a Tuple holding one pointer twice never ends: KF-C04-tuple-dup-iter / KF-C11-tuple-dup), references mixed with wrong-typed operands; assign with operands holding own elements is C04\'s subject',
                    'a stored object passed where `cast` demands the exact key / value type and the object has the other probe type is passed as a converted copy (the two probe types are convertible)',
                    'keys are probe objects whose Hash the harness chooses (boundary values included); Tables keyed by the library\'s own Int / Float / String objects are the C02 / C10 engines\' subject (such keys have no observable finalisation; to Table.c a key is its hash, its size and its Cmp)',
                    'invariants are stated after every operation; nothing is claimed about the states inside one operation',
@@ -552,6 +613,17 @@ class C05(Spec):
                 acc['aliased_' + name] = acc.get('aliased_' + name, 0) + 1
                 c0 = op.split()[1]
                 if any(t.startswith(f'@{c0}[') or t.startswith(f'@{c0}.') for t in op.split()[2:]): acc['aliased_own_container'] = acc.get('aliased_own_container', 0) + 1
+                if name in ('concatv', 'newv', 'newm'):          # branch counters of the operand paths
+                    refs = [t for t in op.split()[2:] if t.startswith('@')]
+                    acc['operand_refs'] = acc.get('operand_refs', 0) + len(refs)
+                    own = [t for t in refs if t.startswith(f'@{c0}[')]
+                    if name == 'concatv':
+                        br = 'concat_list_own_node' if own else 'concat_other_only'
+                        acc[br] = acc.get(br, 0) + 1
+                        if any('[-' in t for t in own): acc['concat_own_negative_index'] = acc.get('concat_own_negative_index', 0) + 1
+                        if own and any(not t.startswith('@') for t in op.split()[2:]): acc['concat_own_mixed_fresh'] = acc.get('concat_own_mixed_fresh', 0) + 1
+                    if name == 'newm' and len(set(refs)) < len(refs): acc['ctor_same_object_twice'] = acc.get('ctor_same_object_twice', 0) + 1
+                    if name == 'newv' and len(set(refs)) < len(refs): acc['ctor_same_object_twice'] = acc.get('ctor_same_object_twice', 0) + 1
             if name in ('mset', 'mrem') and any(t.isdigit() and BH_BASE <= int(t) < BH_BASE + BH_PER * BH_N for t in op.split()[2:3]):
                 acc['boundary_hash_key_ops'] = acc.get('boundary_hash_key_ops', 0) + 1
             if '!' in op:
